@@ -125,9 +125,14 @@ fn exec_line(line: &str) -> String {
     )
 }
 
-fn timeout_line(line: &str, _probe: bool) -> String {
+fn fail_line(line: &str, kind: Fail) -> String {
     let gs = GraphSpec::parse(line.split('#').next().unwrap());
-    format!("anomaly-timeout\t{}\t{{| q_graph := {}; q_calls := [mkcall [] [] Timeout]; q_conc_ok := false |}}", line, gs.coq())
+    let (o, t, ok) = match kind {
+        Fail::Hang => ("Timeout", "anomaly-timeout", false),
+        Fail::Crash => ("Panic", "anomaly-crash", false),
+        Fail::Skip => ("NotRun", "notrun", true),
+    };
+    format!("{}\t{}\t{{| q_graph := {}; q_calls := [mkcall [] [] {}]; q_conc_ok := {} |}}", t, line, gs.coq(), o, ok)
 }
 
 fn generate(seed: u64, n: usize, _tier: &str, out: &mut dyn Write) {
@@ -198,5 +203,5 @@ fn generate(seed: u64, n: usize, _tier: &str, out: &mut dyn Write) {
 }
 
 fn main() {
-    harness_main(generate, exec_line, timeout_line, 20000);
+    harness_main(generate, exec_line, fail_line, 20000);
 }
